@@ -1,13 +1,99 @@
-"""C13 -- placeholder until the check is built"""
+"""C13 -- every master-curve row traces back to a classified interval and its data"""
+
+from .. import core, curves_common, curves_corpus, gen_series, oracle_curves
+
 PROPERTY = 'C13'
 LEVEL = 'exploration'
-SHARDS = {'quick': 1, 'thorough': 1}
-RULE = 'not built yet'
+SHARDS = {'quick': 4, 'thorough': 16}
+RULE = (
+    'Planted, two-band, noisy and long G-series datasets x grid steps (incl. records shifted so that min or max '
+    'water level is exactly a multiple of the step) through load, classify, set-zeta-grid, rise, recession (function '
+    'and CLI; field data in thorough).  Walker: rising_interval rows are paired rises, recession_interval rows are '
+    'interstorm intervals; every stored crossing equals the mean crossing recomputed by closed-form chord inversion '
+    'from that interval\'s own samples (rise: segment (0, zeta_initial) -> (depth of its own storm recomputed from the '
+    'rainfall rows, zeta_final)); view rising_curve_line_segment equals the same; every level is in discrete_zeta; '
+    'the grid is the contiguous range of cells covering [min, max] with floor/ceil ends (tested directly after '
+    'set-zeta-grid on every dataset, whether or not a curve assembles).  Non-trivial: >= 2 intervals in the curve; '
+    'distinct by dataset digest x step.'
+)
+ASSUMPTIONS = [
+    'a level within 1e-9 (relative) of y/step being an integer is tie-ambiguous for membership and is not compared',
+]
+SIZES = {'quick': dict(ds=100, cli=10), 'thorough': dict(ds=4000, cli=200, field=True)}
+REQUIRED = {
+    tier: {
+        'grids-checked': 50,
+        'observed-extreme-on-a-grid-level': 8,
+        'recession-curves-assembled': 20,
+        'rise-curves-assembled': 20,
+        'recession:crossing-values-checked': 1000,
+        'rise:crossing-values-checked': 1000,
+        'rise:line-segment-view-rows-checked': 50,
+    }
+    for tier in ('quick', 'thorough')
+}
+MIN_NONTRIVIAL = {'quick': 40, 'thorough': 1000}
+
+
+def put_extreme_on_level(case, rng):
+    gs = case['grid_step']
+    zs = [v for _, v in case['z']]
+    which = rng.choice(['min', 'max'])
+    ref = min(zs) if which == 'min' else max(zs)
+    k = round(ref / gs)
+    shift = k * gs - ref
+    case = dict(case)
+    case['z'] = [[t, v + shift] for t, v in case['z']]
+    if 'truth' in case:
+        case['truth'] = [dict(tr, R=[r + shift for r in tr['R']]) for tr in case['truth']]
+    case['extreme_on_level'] = which
+    return case
+
+
+def nontrivial(kind, stats):
+    return stats.get('intervals-in-curve', 0) >= 2
+
+
+def check_dataset(ctx, case, via, index):
+    rec = ctx.rec
+    # grid directly after set-zeta-grid
+    connection, db, exc = curves_common.build_dataset(ctx, case, 'function')
+    if exc is None:
+        findings, stats = oracle_curves.check_grid(connection)
+        rec.hit('grids-checked')
+        for name, n in stats.items():
+            rec.hit(name, n)
+        for p, k, w in findings:
+            rec.violation(k, w, case, 'dataset')
+    if connection is not None:
+        connection.close()
+    curves_corpus.run_dataset(ctx, PROPERTY, case, via, index, nontrivial=nontrivial)
 
 
 def run(ctx):
-    ctx.rec.inconclusive_because('check not built yet')
+    s = SIZES[ctx.tier]
+    rng = ctx.rng('datasets')
+    n = ctx.share(s['ds'])
+    ncli = ctx.share(s['cli'])
+    for i in range(n):
+        case = curves_corpus.make_case(rng, i)
+        if i % 3 == 0:
+            if case.get('kind') != 'planted':
+                case['grid_step'] = rng.choice([0.125, 0.25, 0.5, 1.0, 2.0])
+            case = put_extreme_on_level(case, rng)
+        check_dataset(ctx, case, 'cli' if i < ncli else 'function', i)
+    if s.get('field'):
+        from . import c05
+        saved = c05.PROPERTY
+        try:
+            c05.PROPERTY = PROPERTY
+            c05.run_field(ctx)
+        finally:
+            c05.PROPERTY = saved
 
 
 def replay(ctx, case, module=None):
-    ctx.rec.inconclusive_because('check not built yet')
+    if case.get('kind') == 'field':
+        ctx.rec.inconclusive_because('field cases are re-run by the thorough tier')
+        return
+    check_dataset(ctx, case, 'function', 0)
